@@ -91,7 +91,8 @@ def materialise(case: Dict[str, Any]) -> Dict[str, Any]:
     blocks: List[Dict[str, Any]] = [{"mode": "by_position", "context": {k: vals[k] for k in first_keys}}]
     if case.get("unicode"):
         # an extra (unused) context key with non-ASCII text: the spec ID must still agree between inspect and the trace
-        blocks[0]["context"]["label"] = ["é%d-日本-ß" % i for i in range(n)]
+        # (precomposed, decomposed and compatibility forms are different texts: e + U+0301, ANGSTROM SIGN, a CJK compatibility ideograph)
+        blocks[0]["context"]["label"] = ["é%d-日本-ß-e\u0301-\u212b-\ufa10" % i for i in range(n)]
     files: List[Dict[str, Any]] = []
     combine = "combinatorial"
     if second_keys:
@@ -348,6 +349,27 @@ def check_case(case: Dict[str, Any], col: Collector, workroot: str = ".") -> Non
                     bad("inputs_id_unchanged_after_content_change", {}, inputs0, "a different inputs id")
                 if s6[0].get("run_space_spec_id") != trace_spec:
                     bad("spec_id_changes_with_file_content", {}, s6[0].get("run_space_spec_id"), trace_spec)
+            if case["n"] % 2 == 0:
+                # a large file (> 1 MiB of trailing blank lines) edited in its last bytes with its size kept:
+                # the content changed, the plan did not
+                with open(fpath, "a") as fh:
+                    fh.write("\n" * ((1 << 20) + 4096))
+                _clear_traces(d)
+                L7 = do_launch(case, mat, d, launch_args(case))
+                s7 = [r for r in L7["records"] if r.get("record_type") == "run_space_start"]
+                size7 = os.path.getsize(fpath)
+                with open(fpath, "r+b") as fh:
+                    fh.seek(-2, os.SEEK_END)
+                    fh.write(b"\r\n")
+                _clear_traces(d)
+                L8 = do_launch(case, mat, d, launch_args(case))
+                s8 = [r for r in L8["records"] if r.get("record_type") == "run_space_start"]
+                labs.append("large_file_same_size_edit")
+                if s7 and s8 and os.path.getsize(fpath) == size7:
+                    if s8[0].get("run_space_inputs_id") == s7[0].get("run_space_inputs_id"):
+                        bad("inputs_id_unchanged_after_content_change", {"edit": "same_size_tail_of_large_file"}, s7[0].get("run_space_inputs_id"), "a different inputs id")
+                    if s8[0].get("planned_run_count") != s7[0].get("planned_run_count"):
+                        labs.append("guard:tail_edit_changed_plan")
         col.count(rep, labs, len(plan) >= 2 and (fail_at is not None or bool(mat["spec"]["files"]) or changed))
     finally:
         shutil.rmtree(root, ignore_errors=True)
